@@ -56,6 +56,8 @@ def run(c, idx, base):
     for kind, rel in c['roots']:
         argv += [kind, os.path.join(top, *rel)]
     argv += c['flags']
+    for pk in c.get('spkgs', []):
+        argv += ['-s', pk]
     res = {'found': None, 'imported': None}
     from zope.testrunner.find import identifier
     from zope.testrunner.options import get_options
@@ -81,8 +83,24 @@ def run(c, idx, base):
     pats = set(p[1:] if p.startswith('!') else p for p in options.module) | {'.'}
     res['mtab'] = [[p, m, re.compile(p).search(m) is not None] for p in sorted(pats) for m in sorted(mods)]
     if c['mode'] == 'direct':
-        from zope.testrunner.find import find_test_files
-        found = [f for f, pkg in find_test_files(options)]
+        import types
+        import zope.testrunner.find as F
+        saved = F.import_name
+        if c.get('spkgs'):
+            # --package: test_dirs() imports the package and walks its __path__ entries that lie below a search path;
+            # the import is answered by a stand-in whose __path__ lists the package's directory under every root that has it
+            def fake_import(name, c=c, top=top):
+                m = types.ModuleType(name)
+                rel = name.split('.')
+                m.__path__ = [os.path.join(top, *(r[1] + rel)) for r in
+                              ([x for x in c['roots'] if x[0] == '--test-path'] + [x for x in c['roots'] if x[0] == '--path'])
+                              if os.path.isdir(os.path.join(top, *(r[1] + rel)))]
+                return m
+            F.import_name = fake_import
+        try:
+            found = [f for f, pkg in F.find_test_files(options)]
+        finally:
+            F.import_name = saved
         res['found'] = [os.path.relpath(f, base).split(os.sep) for f in found]
     else:
         trace = os.path.join(base, 'trace_%d' % idx)
